@@ -75,6 +75,30 @@ unit(name="SrcTransform", props="property C03", file=SA_FILE, dialect="gensa", s
                      locals={"s": "usize"},
                      theorem="RbV.Thm.GenSrcTransform.transform_text_spec")])
 
+# `PosTypes`: the `BitVec` (bv crate) is read as the vector of its bits: `BitVec::new_fill(b, n)` = `n` copies,
+# `set_bit(i, b)` / `get_bit(i)` = write / read with bounds check (both panic out of range, as the crate does);
+# the generic symbol type `T` (only `==` and `<` are used) is read at `u64`
+SA_POSTYPES = {"PosTypes": [("pos_types", "Vec<bool>")]}
+
+unit(name="SrcPosTypes", props="property C03", file=SA_FILE, dialect="gensa", structs=SA_POSTYPES,
+     pinned_items=["struct PosTypes { pos_types: BitVec, }"],
+     functions=[dict(name="PosTypes::new", lean="new",
+                     header="fn new<T: Integer + Unsigned + NumCast + Copy>(text: &[T]) -> Self",
+                     after="impl PosTypes", aliases={"T": "u64", "Self": "PosTypes", "BitVec": "Vec<bool>"},
+                     params=[("text", "&[T]")], ret="PosTypes", locals={"pos_types": "Vec<bool>"},
+                     theorem="RbV.Thm.GenSrcPosTypes.new_eq_model"),
+                dict(name="PosTypes::is_s_pos", lean="is_s_pos", header="fn is_s_pos(&self, p: usize) -> bool",
+                     self_fields=[("pos_types", "Vec<bool>")], params=[("p", "usize")], ret="bool",
+                     theorem="RbV.Thm.GenSrcPosTypes.is_s_pos_eq_model"),
+                dict(name="PosTypes::is_l_pos", lean="is_l_pos", header="fn is_l_pos(&self, p: usize) -> bool",
+                     self_fields=[("pos_types", "Vec<bool>")], params=[("p", "usize")], ret="bool",
+                     theorem="RbV.Thm.GenSrcPosTypes.is_l_pos_eq_model"),
+                dict(name="PosTypes::is_lms_pos", lean="is_lms_pos", header="fn is_lms_pos(&self, p: usize) -> bool",
+                     self_fields=[("pos_types", "Vec<bool>")], params=[("p", "usize")], ret="bool",
+                     self_calls={"is_s_pos": dict(lean="is_s_pos", self_args=["self.pos_types"], args=["usize"], ret="bool"),
+                                 "is_l_pos": dict(lean="is_l_pos", self_args=["self.pos_types"], args=["usize"], ret="bool")},
+                     theorem="RbV.Thm.GenSrcPosTypes.is_lms_pos_eq_model")])
+
 _SA = {}
 
 
@@ -116,6 +140,16 @@ def _sa_classes():
                 tv = self.tmp()
                 code.bind(tv, ("call", f["lean"] + "".join(" " + p_ for p_ in parts)))
                 return tv, self.ty_of_text(f["ret"])
+            if path == "BitVec::new_fill" and len(e.args) == 2:
+                # bv crate: `BitVec::new_fill(b, n)` = n copies of b
+                want = expected if isinstance(expected, cb.TSeq) else cb.TSeq(cb.TBool())
+                if want != cb.TSeq(cb.TBool()):
+                    self.err("`BitVec::new_fill` for %r" % (want,), e)
+                b, bt = self.expr(e.args[0], code, cb.TBool())
+                n, nt = self.expr(e.args[1], code, cb.TInt("u64"))
+                if not isinstance(bt, cb.TBool) or nt != cb.TInt("u64"):
+                    self.err("`BitVec::new_fill(%r, %r)`" % (bt, nt), e)
+                return "List.replicate %s %s" % (atom_(n), atom_(b)), want
             if path == "Vec::with_capacity" and len(e.args) == 1:
                 if not isinstance(expected, cb.TSeq):
                     self.err("`Vec::with_capacity` without a declared element type", e)
@@ -141,13 +175,26 @@ def _sa_classes():
                     return "(if %s then 1 else 0)" % b, target
             return BaseF.expr(self, e, code, expected)
 
+        def mcall(self, e, code, expected):
+            if e.name == "get_bit" and len(e.args) == 1:
+                rt = self.dry(e.recv)
+                if rt == cb.TSeq(cb.TBool()):
+                    r, _ = self.expr(e.recv, code)
+                    i, it = self.expr(e.args[0], code, cb.TInt("u64"))
+                    if it != cb.TInt("u64"):
+                        self.err("`.get_bit(%r)`" % (it,), e)
+                    t = self.tmp()
+                    code.bind(t, ("call", "Rs.idx %s %s" % (atom_(r), atom_(i))))
+                    return t, cb.TBool()
+            return BaseF.mcall(self, e, code, expected)
+
         def _mut_expr(self, e, decl, out):
             BaseF._mut_expr(self, e, decl, out)
 
             def f(n):
                 if n.kind in ("if", "match", "block", "closure"):
                     return False
-                if n.kind == "mcall" and n.name == "set" and len(n.args) == 2 and cf.strip(n.recv).kind == "var":
+                if n.kind == "mcall" and n.name in ("set", "set_bit") and len(n.args) == 2 and cf.strip(n.recv).kind in ("var", "field"):
                     r = self._lhs_root(n.recv)
                     if r not in decl and r not in out:
                         out.append(r)
@@ -163,6 +210,15 @@ def _sa_classes():
                     x, xt = self.expr(e.args[1], code, v.ty.elem)
                     if it != cb.TInt("usize") or xt != v.ty.elem:
                         self.err("`.set(%r, %r)` on %r" % (it, xt, v.ty), e)
+                    code.bind(v.lean, ("call", "Rs.setIdx %s %s %s" % (atom_(v.lean), atom_(i), atom_(x))))
+                    return
+            if e.kind == "mcall" and e.name == "set_bit" and len(e.args) == 2:
+                v = self.container(e.recv, e)
+                if v is not None and v.ty == cb.TSeq(cb.TBool()):
+                    i, it = self.expr(e.args[0], code, cb.TInt("u64"))
+                    x, xt = self.expr(e.args[1], code, cb.TBool())
+                    if it != cb.TInt("u64") or not isinstance(xt, cb.TBool):
+                        self.err("`.set_bit(%r, %r)`" % (it, xt), e)
                     code.bind(v.lean, ("call", "Rs.setIdx %s %s %s" % (atom_(v.lean), atom_(i), atom_(x))))
                     return
             return BaseF.expr_stmt(self, e, code)
